@@ -717,10 +717,12 @@ Module BAR.
                           (mkev t KBegin 1 0 0 0 :: trace s))   (* fn() l.19 *)
         | FnE => if gate_open (open s) (t_gate x)
                  then Some (mk (lock s) (open s) (upd (ts s) t (mkt BUnlock (t_gate x) (t_val x) (t_todo x) (t_res x)))
-                               (mkev t KEnd 1 0 (t_val x) 0 :: trace s))
+                               (mkev t KEnd 1 0 (t_val x) (pan_flag (t_val x)) :: trace s))
                  else None
-        | BUnlock => Some (mk None (open s) (upd (ts s) t (mkt Idle (t_gate x) (t_val x) (t_todo x) ((1, t_val x) :: t_res x)))
-                              (mkev t KRet 1 0 (t_val x) 1 :: trace s))   (* deferred lock.Unlock() l.18 *)
+        | BUnlock => (* deferred lock.Unlock() l.18 -- it runs whether fn returned or panicked (scripted value 0:
+                        fn panics, the caller of Guard sees the panic: result (2, 0)) *)
+                     Some (mk None (open s) (upd (ts s) t (mkt Idle (t_gate x) (t_val x) (t_todo x) ((S (pan_flag (t_val x)), t_val x) :: t_res x)))
+                              (mkev t KRet 1 0 (t_val x) (S (pan_flag (t_val x))) :: trace s))
         end
     end.
   Definition busy (s : state) (t : nat) : bool := match t_pc (ts s t) with Idle => false | _ => true end.
